@@ -72,9 +72,13 @@ def AspEnt.matchesPath (e : AspEnt) (l : List Nat) : Bool :=
     is `ANY` over the CURRENT members of the defined set it refers to (the members are what the
     configuration says after every append / remove / replace applied to the set). -/
 structure Stmt where
-  commSet : List Nat := []      -- []: no community condition; else match-community-set ANY
-  pfxSet  : Option (List PfxEnt) := none   -- match-prefix-set ANY
-  aspSet  : Option (List AspEnt) := none   -- match-as-path-set ANY
+  commSet : Option (List Nat) := none      -- match-community-set
+  commOpt : Nat := 0                       -- match option: 0 ANY, 1 ALL, 2 INVERT
+  pfxSet  : Option (List PfxEnt) := none   -- match-prefix-set
+  pfxOpt  : Nat := 0                       -- 0 ANY, 2 INVERT
+  aspSet  : Option (List AspEnt) := none   -- match-as-path-set
+  aspOpt  : Nat := 0                       -- 0 ANY, 1 ALL, 2 INVERT
+  nbrOpt  : Nat := 0                       -- neighbor-set: 0 ANY, 2 INVERT
   aspLen  : Option (Nat × Nat) := none  -- as-path-length condition: (0 eq | 1 ge | 2 le, n)
   anyPeer : Bool := true        -- no neighbor condition
   peers   : List Nat := []      -- match-neighbor-set ANY (peer indices)
@@ -98,17 +102,31 @@ def cmpLen (c : Nat × Nat) (len : Nat) : Bool :=
 /-- Statement.Evaluate: every condition holds. `peer` is the index of PolicyOptions.Info — the
     source peer for import, the target peer for export. -/
 def Stmt.matches (s : Stmt) (peer : Nat) (r : Cand) : Bool :=
-  (s.commSet.isEmpty || s.commSet.any (fun c => r.comms.contains c)) &&
-    (s.anyPeer || s.peers.contains peer) &&
+  (match s.commSet with
+   | none => true
+   | some cs =>
+     -- CommunityCondition.Evaluate: ALL over an EMPTY set is false (the loop never sets result)
+     if s.commOpt = 1 then !cs.isEmpty && cs.all (fun c => r.comms.contains c)
+     else if s.commOpt = 2 then !cs.any (fun c => r.comms.contains c)
+     else cs.any (fun c => r.comms.contains c)) &&
+    -- NeighborCondition.Evaluate: an EMPTY neighbor set matches everything, whatever the option
+    (s.anyPeer || s.peers.isEmpty ||
+      (if s.nbrOpt = 2 then !s.peers.contains peer else s.peers.contains peer)) &&
     (match s.aspLen with
      | none => true
      | some c => cmpLen c (asPathLen r)) &&
     (match s.pfxSet with
      | none => true
-     | some es => es.any (fun e => e.matchesPfx r.pfx)) &&
+     | some es =>
+       if s.pfxOpt = 2 then !es.any (fun e => e.matchesPfx r.pfx)
+       else es.any (fun e => e.matchesPfx r.pfx)) &&
     (match s.aspSet with
      | none => true
-     | some es => es.any (fun e => e.matchesPath (asSeqList r.segs)))
+     | some es =>
+       -- AsPathCondition.Evaluate: ALL and INVERT over an EMPTY set are true, ANY is false
+       if s.aspOpt = 1 then es.all (fun e => e.matchesPath (asSeqList r.segs))
+       else if s.aspOpt = 2 then !es.any (fun e => e.matchesPath (asSeqList r.segs))
+       else es.any (fun e => e.matchesPath (asSeqList r.segs)))
 
 /-- the ModActions of a statement (on a clone of the path) -/
 def Stmt.modify (s : Stmt) (r : Cand) : Cand :=
